@@ -119,3 +119,52 @@ def gbs_gap_twin(gap: int, e: int, k0: int) -> bool:
     post: _
     """
     return same_parse(_gbs(1, k0, 0, gap, e), expected_gbs(ELS[(e + 1) % 3]))
+
+
+NOISE = ["blank", "comment"]
+
+
+def _nw_noise(kind, pos, e):
+    kind, pos, e = realize(kind), realize(pos), realize(e)
+    _TEXT[0] = nwchem_text(["# c"], 2, 0, "plain", elements=ELS[e], comments=False, noise=(NOISE[kind], pos))
+    return P.parse_nwchem("x")
+
+
+def _gbs_noise(kind, pos, e):
+    kind, pos, e = realize(kind), realize(pos), realize(e)
+    _TEXT[0] = gbs_text(["! c"], 2, 0, "D", elements=ELS[e], noise=(NOISE[kind], pos))
+    return P.parse_gbs("x")
+
+
+def nwchem_noise(kind: int, pos: int, e: int) -> bool:
+    """
+    a blank or a comment line after primitive row `pos` inside every shell that has a further row
+
+    pre: 0 <= kind < 2 and 0 <= pos < 3 and 0 <= e < 3
+    post: _
+    """
+    return same_parse(_nw_noise(kind, pos, e), expected_nwchem(ELS[e]))
+
+
+def nwchem_noise_twin(kind: int, pos: int, e: int) -> bool:
+    """
+    pre: 0 <= kind < 2 and 0 <= pos < 3 and 0 <= e < 3
+    post: _
+    """
+    return same_parse(_nw_noise(kind, pos, e), expected_nwchem(ELS[(e + 1) % 3]))
+
+
+def gbs_noise(kind: int, pos: int, e: int) -> bool:
+    """
+    pre: 0 <= kind < 2 and 0 <= pos < 3 and 0 <= e < 3
+    post: _
+    """
+    return same_parse(_gbs_noise(kind, pos, e), expected_gbs(ELS[e]))
+
+
+def gbs_noise_twin(kind: int, pos: int, e: int) -> bool:
+    """
+    pre: 0 <= kind < 2 and 0 <= pos < 3 and 0 <= e < 3
+    post: _
+    """
+    return same_parse(_gbs_noise(kind, pos, e), expected_gbs(ELS[(e + 1) % 3]))
